@@ -8,10 +8,12 @@ mod matrix;
 mod mon;
 mod mon_admin;
 mod mon_risk;
+mod mon_venue;
 mod scen;
 mod shapes;
 mod storm;
 mod tap;
+mod venue;
 mod world;
 
 use serde_json::json;
@@ -19,6 +21,8 @@ use std::time::{Duration, Instant};
 
 pub struct Args {
     pub prop: String,
+    /// optional workload selector given as `<PROP>:<mode>`
+    pub mode: String,
     pub tier: String,
     pub seed: u64,
     pub shard: u64,
@@ -29,7 +33,12 @@ pub struct Args {
 
 fn parse_args() -> Args {
     let a: Vec<String> = std::env::args().collect();
-    let mut r = Args { prop: a.get(1).cloned().unwrap_or_default(), tier: "quick".into(), seed: 1, shard: 0, nshards: 1, out: "/dev/stderr".into(), budget: Duration::from_secs(45) };
+    let first = a.get(1).cloned().unwrap_or_default();
+    let (prop, mode) = match first.split_once(':') {
+        Some((p, m)) => (p.to_string(), m.to_string()),
+        None => (first, String::new()),
+    };
+    let mut r = Args { prop, mode, tier: "quick".into(), seed: 1, shard: 0, nshards: 1, out: "/dev/stderr".into(), budget: Duration::from_secs(45) };
     let mut i = 2;
     while i < a.len() {
         let v = a.get(i + 1).cloned().unwrap_or_default();
@@ -48,7 +57,7 @@ fn parse_args() -> Args {
 }
 
 pub fn subseed(a: &Args, salt: u64) -> u64 {
-    report::h64(&(a.seed, a.prop.as_str(), a.shard, salt))
+    report::h64(&(a.seed, a.prop.as_str(), a.mode.as_str(), a.shard, salt))
 }
 
 async fn run_storm(a: &Args, m: &mut mon::Mon) {
@@ -58,7 +67,7 @@ async fn run_storm(a: &Args, m: &mut mon::Mon) {
         let seed = subseed(a, world_no);
         let mut r = storm::rng(seed);
         use rand::Rng;
-        let cfg = storm::StormCfg { n_banks: r.gen_range(3..=6), n_users: r.gen_range(3..=6), program_fees: r.gen_bool(0.6), magnitude: storm::pick(&mut r, &[0u8, 1, 1, 1, 2]), with_staked: a.prop == "C16" && r.gen_bool(0.6), n_isolated: 1, emode: r.gen_bool(0.3) };
+        let cfg = storm::StormCfg { n_banks: r.gen_range(3..=6), n_users: r.gen_range(3..=6), program_fees: r.gen_bool(0.6), magnitude: storm::pick(&mut r, &[0u8, 1, 1, 1, 2]), with_staked: a.prop == "C16" && r.gen_bool(0.6), n_isolated: 1, emode: r.gen_bool(0.3), n_kamino: 0 };
         let (mut w, mut s) = storm::Storm::build(seed, cfg).await;
         let steps = if a.tier == "thorough" { 6000 } else { 1500 };
         for k in 0..steps {
@@ -101,7 +110,7 @@ async fn run_scen(a: &Args, m: &mut mon::Mon) {
         let seed = subseed(a, world_no);
         let mut r = storm::rng(seed);
         let c04 = a.prop == "C04";
-        let cfg = storm::StormCfg { n_banks: if c04 { r.gen_range(5..=8) } else { r.gen_range(3..=5) }, n_users: 2, program_fees: r.gen_bool(0.6), magnitude: 1, with_staked: false, n_isolated: if c04 { 2 } else { 1 }, emode: c04 || r.gen_bool(0.3) };
+        let cfg = storm::StormCfg { n_banks: if c04 { r.gen_range(5..=8) } else { r.gen_range(3..=5) }, n_users: 2, program_fees: r.gen_bool(0.6), magnitude: 1, with_staked: false, n_isolated: if c04 { 2 } else { 1 }, emode: c04 || r.gen_bool(0.3), n_kamino: 0 };
         let (mut w, mut s) = storm::Storm::build(seed, cfg).await;
         let g = s.g;
         let lq = s.liquidator;
@@ -189,7 +198,7 @@ async fn run_admin(a: &Args, m: &mut mon::Mon) {
     while t0.elapsed() < a.budget {
         let seed = subseed(a, world_no);
         let mut r = storm::rng(seed);
-        let cfg = storm::StormCfg { n_banks: r.gen_range(3..=5), n_users: 3, program_fees: r.gen_bool(0.7), magnitude: 1, with_staked: false, n_isolated: 1, emode: false };
+        let cfg = storm::StormCfg { n_banks: r.gen_range(3..=5), n_users: 3, program_fees: r.gen_bool(0.7), magnitude: 1, with_staked: false, n_isolated: 1, emode: false, n_kamino: 0 };
         let (mut w, mut s) = storm::Storm::build(seed, cfg).await;
         let g = s.g;
         let mut ad = admin::Admin { g, emint: None, steps: 0 };
@@ -239,6 +248,135 @@ async fn run_admin(a: &Args, m: &mut mon::Mon) {
         m.r.add("storm.steps", s.steps);
         m.r.add("admin.steps", ad.steps);
         m.r.add("storm.worlds", 1);
+        world_no += 1;
+    }
+}
+
+/// Pass-through (venue) workload: worlds with Kamino banks served by the stateful venue stand-in.
+/// Storm steps (venue deposits / withdrawals / yield / slot progress / rounding faults) are
+/// interleaved with directed probes: integration-cap saturation, deposit-withdraw round trips,
+/// borrow boundaries against venue collateral (fresh and stale reserve), liquidation of it.
+async fn run_venue(a: &Args, m: &mut mon::Mon) {
+    use rand::Rng;
+    use solana_sdk::signature::Signer;
+    let t0 = Instant::now();
+    let mut world_no = 0u64;
+    while t0.elapsed() < a.budget {
+        let seed = subseed(a, world_no);
+        let mut r = storm::rng(seed);
+        let cfg = storm::StormCfg { n_banks: r.gen_range(2..=3), n_users: 3, program_fees: r.gen_bool(0.5), magnitude: storm::pick(&mut r, &[0u8, 1, 1, 1]), with_staked: false, n_isolated: 0, emode: false, n_kamino: storm::pick(&mut r, &[2usize, 4, 10, 10]) };
+        let (mut w, mut s) = storm::Storm::build(seed, cfg).await;
+        let g = s.g;
+        let lq = s.liquidator;
+        let kbanks: Vec<usize> = (0..w.banks.len()).filter(|b| w.banks[*b].kamino.is_some()).collect();
+        let rounds = if a.tier == "thorough" { 60 } else { 16 };
+        for _ in 0..rounds {
+            if t0.elapsed() >= a.budget {
+                break;
+            }
+            for _ in 0..r.gen_range(10..60) {
+                s.step(&mut w, m).await;
+            }
+            venue::KAMINO_FAULT.store(0, std::sync::atomic::Ordering::Relaxed);
+            w.venue_autorefresh = true;
+            w.refresh_oracles();
+            match r.gen_range(0..4) {
+                0 => {
+                    // integration-cap saturation: one account enters every venue bank in turn
+                    let acct = r.gen_range(0..w.accts.len());
+                    let auth = w.auth_of(acct);
+                    let mut order = kbanks.clone();
+                    for i in (1..order.len()).rev() {
+                        order.swap(i, r.gen_range(0..=i));
+                    }
+                    let mut accepted = 0u64;
+                    for b in order {
+                        let ta = w.ta_of(acct, b);
+                        let i = w.ix_kamino_deposit(acct, b, auth.pubkey(), ta, storm::pick(&mut r, &[1000u64, 1_000_000, 5]));
+                        if w.exec(m, &[i], &[&auth]).await.ok() {
+                            accepted += 1;
+                        }
+                    }
+                    let n = w.acct(acct).lending_account.balances.iter().filter(|b| b.active != 0 && b.bank_asset_tag >= 3).count();
+                    m.r.max("venue.max_integration_positions_of_one_account", n as f64);
+                    m.r.add("venue.cap_probe_deposits_accepted", accepted);
+                    m.r.count("venue.cap_probes");
+                    if n == 8 && kbanks.len() > 8 {
+                        m.r.count("venue.cap_probes_saturated_at_8");
+                    }
+                }
+                1 => {
+                    // deposit -> withdraw-all round trip at the current venue rate
+                    let acct = r.gen_range(0..w.accts.len());
+                    let b = storm::pick(&mut r, &kbanks);
+                    let auth = w.auth_of(acct);
+                    let ta = w.ta_of(acct, b);
+                    if s.position(&w, acct, b).0 == 0 {
+                        let t_before = w.token(&ta);
+                        let base = storm::pick(&mut r, &[1000u64, 1_000_000, 1 << 30]);
+                        let amt = storm::amount_near(&mut r, base).min(t_before);
+                        let i = w.ix_kamino_deposit(acct, b, auth.pubkey(), ta, amt);
+                        if amt > 0 && w.exec(m, &[i], &[&auth]).await.ok() {
+                            let i = w.ix_kamino_withdraw(acct, b, auth.pubkey(), ta, 0, Some(true));
+                            if w.exec(m, &[i], &[&auth]).await.ok() {
+                                let t_after = w.token(&ta);
+                                m.r.eval();
+                                m.r.count("C20.chain_round_trips");
+                                m.r.max("C20.chain_round_trip_max_loss_units", (t_before as f64) - (t_after as f64));
+                                if t_after > t_before {
+                                    m.r.violate("C20", "C20/round-trip/deposit-then-withdraw-all-returned-more", format!("bank {}: deposited {} and got back {} more than was put in", w.banks[b].key, amt, t_after - t_before));
+                                }
+                            }
+                        }
+                    }
+                }
+                _ => {
+                    // venue collateral backing a loan: borrow boundary with a fresh reserve, then
+                    // with a reserve that was not refreshed in the current slot
+                    let cands: Vec<usize> = kbanks.iter().cloned().filter(|b| scen::usable_collateral_any(&w, *b)).collect();
+                    let dbs: Vec<usize> = (0..w.banks.len()).filter(|b| w.banks[*b].kamino.is_none() && w.bank(*b).config.operational_state == marginfi_type_crate::types::BankOperationalState::Operational).collect();
+                    if cands.is_empty() || dbs.is_empty() {
+                        continue;
+                    }
+                    let (ca, db) = (storm::pick(&mut r, &cands), storm::pick(&mut r, &dbs));
+                    let frac = storm::pick(&mut r, &[1.0f64, 0.999, 0.9, 0.5]);
+                    if let Some(lev) = scen::setup_leveraged(&mut w, m, &mut r, g, lq, ca, db, frac).await {
+                        m.r.count("venue.leveraged_on_venue_collateral");
+                        let auth = w.auth_of(lev.acct);
+                        let ak = auth.pubkey();
+                        // withdraw boundary of the venue collateral
+                        let ta = w.ta_of(lev.acct, ca);
+                        let hi = s.position(&w, lev.acct, ca).0;
+                        let acct = lev.acct;
+                        if let Some(x) = scen::bisect_max(&mut w, m, &[&auth], hi, |w, x| vec![w.ix_kamino_withdraw(acct, ca, ak, ta, x, None)]).await {
+                            m.r.count("venue.withdraw_boundary_found");
+                            let _ = x;
+                        }
+                        // the reserve goes stale: anything that needs its price must now fail
+                        let slot = w.chain.clock.slot + 1;
+                        w.chain.set_clock_slot(slot);
+                        w.venue_autorefresh = false;
+                        w.refresh_oracles();
+                        let tb = w.ta_of(acct, db);
+                        let i = w.ix_borrow(acct, db, ak, tb, 1);
+                        let o = w.probe(m, &[i], &[&auth]).await;
+                        m.r.count(if o.ok() { "venue.stale_reserve_borrow_accepted" } else { "venue.stale_reserve_borrow_rejected" });
+                        let i = w.ix_kamino_withdraw(acct, ca, ak, ta, 1, None);
+                        let o = w.probe(m, &[i], &[&auth]).await;
+                        m.r.count(if o.ok() { "venue.stale_reserve_withdraw_accepted" } else { "venue.stale_reserve_withdraw_rejected" });
+                        w.venue_autorefresh = true;
+                        w.refresh_oracles();
+                        if r.gen_bool(0.5) {
+                            scen::liquidation(&mut w, m, &mut r, &lev, lq).await;
+                        }
+                    }
+                }
+            }
+        }
+        m.r.add("storm.steps", s.steps);
+        m.r.add("storm.accepted_transactions", s.accepted);
+        m.r.add("storm.worlds", 1);
+        m.r.add("venue.kamino_standin_calls", venue::KAMINO_CALLS.load(std::sync::atomic::Ordering::Relaxed));
         world_no += 1;
     }
 }
@@ -323,11 +461,17 @@ async fn main() {
         "C14" => vec!["C14"],
         "C19" => vec!["C19"],
         "C11" => vec!["C11"],
+        "C20" => vec!["C20", "C16", "C04", "C05", "C02"],
         "ALL" => vec!["C01", "C02", "C03", "C06", "C16", "C17", "C04", "C05", "C07", "C10", "C11"],
         _ => vec![],
     };
     let mut m = mon::Mon::new(&a.prop, &on);
+    if a.mode == "venue" && !m.on.contains("C20") {
+        m.on.insert("C20");
+    }
     match a.prop.as_str() {
+        _ if a.mode == "venue" => run_venue(&a, &mut m).await,
+        "C20" => run_venue(&a, &mut m).await,
         "C01" | "C02" | "C03" | "C06" | "C16" | "C17" | "ALL" => run_storm(&a, &mut m).await,
         "C11" => {
             if a.shard % 2 == 0 {
